@@ -23,7 +23,7 @@ TokenCP(n) ==
     [] n = "Trademark" -> 8482 [] n = "VerticalTab" -> 11 [] n = "WhiteBullet" -> 9702 [] n = "Yen" -> 165
 
 BoundOf(a) == CASE a[1] = "i" -> IntA(a[2]) [] a[1] = "none" -> NoneA [] a[1] \in {"bool", "boolf"} -> BoolA
-                [] a[1] \in {"float", "float0", "float1"} -> FloatA [] a[1] = "str" -> StrA
+                [] a[1] \in {"float", "float0", "float1", "float2", "float10"} -> FloatA [] a[1] = "str" -> StrA
 NameOf(a)  == CASE a[1] = "none" -> NoneA [] a[1] = "name" -> NameA(a[2]) [] a[1] = "badname" -> BadNameA [] a[1] = "badtype" -> BadTypeA
 SetOfSeq(s) == {s[i] : i \in 1..Len(s)}
 
